@@ -39,23 +39,21 @@ GraphOK(o) == Closed(o) /\ Owner(o) /\ Symmetric(o)
 -----------------------------------------------------------------------------
 (* the sequence graph a logged state presents *)
 RealIdx(o) == {i \in LIdx(o) : o.lines[i].virt = 0}
-SegLenOf(r) == IF Len(r.num) = 1 THEN r.num[1]            \* GFA2: slen
+SegLenOf(r) == IF Len(r.f) = 2 THEN r.num[1]              \* GFA2 (slen, sequence): slen
                ELSE IF r.ln >= 0 THEN r.ln                 \* GFA1: LN tag
                ELSE IF r.seq # <<>> THEN Len(r.seq) ELSE -1
-MatchOnly(cg) == \A i \in DOMAIN cg : cg[i].c \in {"M", "="}
-OvLen(cg) == IF cg = <<>> THEN -1 ELSE IF MatchOnly(cg) THEN SumLen(cg, {"M", "="}) ELSE -2
 DoveIdx(o) == {i \in RealIdx(o) : IsDovetail(Rec(o.lines[i]))}
 GraphOfObs(o) ==
   [segs  |-> {[name |-> Rec(o.lines[i]).name, seq |-> Rec(o.lines[i]).seq, len |-> SegLenOf(Rec(o.lines[i]))]
               : i \in {j \in RealIdx(o) : Rec(o.lines[j]).rt = "S"}},
-   links |-> SeqMap(LAMBDA i : [ends |-> EndsOf(Rec(o.lines[i])), ov |-> OvLen(Rec(o.lines[i]).ovs[1])],
+   links |-> SeqMap(LAMBDA i : [ends |-> EndsOf(Rec(o.lines[i])), ov |-> OvKey(Rec(o.lines[i]).ovs[1])],
                     SetToSeq(DoveIdx(o)))]
 \* the graph the harness meant to build (sanity of the text builder, not a verdict on gfapy)
 GraphIntended(c) ==
   [segs  |-> {[name |-> c.intended.segs[k].name, seq |-> c.intended.segs[k].seq, len |-> c.intended.segs[k].len]
               : k \in DOMAIN c.intended.segs},
    links |-> [k \in DOMAIN c.intended.links |->
-                [ends |-> {c.intended.links[k].e1, c.intended.links[k].e2}, ov |-> c.intended.links[k].ov]]]
+                [ends |-> {c.intended.links[k].e1, c.intended.links[k].e2}, ov |-> OvKey(c.intended.links[k].ov)]]]
 
 \* GFA2: the positions of every edge fit the segments they refer to ($ exactly at the end)
 SegLenNamed(o, n) ==
@@ -121,34 +119,51 @@ CompsOKa(G, P1, opre, o, chs, a) ==
   /\ CompSets(o) = {{Map(n) : n \in K} : K \in CompSets(opre)}
   /\ Len(o.cc) = Cardinality(CompSets(o))
 
-C14Fails(c) ==
-  LET G  == GraphOfObs(c.pre)
-      A  == AllWalks(G)
-      o1 == c.m1.obs
-      o2 == c.m2.obs
-      P1 == GraphOfObs(o1)
-      members == UNION {Names(w) : w \in A}
+\* the clauses about the merged graph, for the chains chs (a sequence) taken as the merged ones
+MergeFails(c, G, P1, chs) ==
+  LET o1 == c.m1.obs
+      members == UNION {Names(chs[k]) : k \in DOMAIN chs}
       newNames == SegNames(P1) \ SegNames(G)
-      chs == SetToSeq(Chains(G))
       n == Len(chs)
       all == IF Cardinality(newNames) = n THEN Assignments(G, chs, newNames, n) ELSE {}
       sOK == {a \in all : SeqOKa(G, P1, a)}
       lOK == {a \in all : LenOKa(G, P1, a)}
       base == IF sOK \cap lOK # {} THEN sOK \cap lOK ELSE all
       kOK == {a \in base : LinksOKa(G, P1, a)}
-      cbase == IF sOK \cap lOK \cap kOK # {} THEN sOK \cap lOK \cap kOK ELSE all
-      foreign == c.lps.res = "FOREIGN" \/ c.m1.res = "FOREIGN" \/ c.m2.res = "FOREIGN"
-                 \/ \E k \in DOMAIN c.lp : c.lp[k].res = "FOREIGN" IN
-  (IF foreign THEN {"foreign"} ELSE {})
-  \cup (IF c.m1.res \notin {"ok", "FOREIGN"} THEN {"C14.refused"} ELSE {})
-  \cup (IF ChainsOK(c, G, A) THEN {} ELSE {"C14.chains"})
-  \cup (IF sOK # {} THEN {} ELSE {"C14.sequence"})
+      cbase == IF sOK \cap lOK \cap kOK # {} THEN sOK \cap lOK \cap kOK ELSE all IN
+  (IF sOK # {} THEN {} ELSE {"C14.sequence"})
   \cup (IF lOK # {} /\ (sOK = {} \/ sOK \cap lOK # {}) THEN {} ELSE {"C14.length"})
   \cup (IF kOK # {} /\ PosValid(o1) THEN {} ELSE {"C14.links"})
   \cup (IF RestBag(c.pre, members) = RestBag(o1, newNames) /\ c.pre.hdr = o1.hdr THEN {} ELSE {"C14.rest"})
   \cup (IF \E a \in cbase : CompsOKa(G, P1, c.pre, o1, chs, a) THEN {} ELSE {"C14.components"})
+
+C14Fails(c) ==
+  LET G  == GraphOfObs(c.pre)
+      A  == AllWalks(G)
+      o1 == c.m1.obs
+      o2 == c.m2.obs
+      P1 == GraphOfObs(o1)
+      C == Chains(G)
+      \* chains with a mismatch operation (X) in a joining overlap: merged or refused (see LinearPaths)
+      \* (for a pure cycle, which dovetail closes it depends on the rotation: any reading counts)
+      XC == {w \in C : \E v \in Variants(G, w) : HasMismatchJoin(G, v)}
+      \* the sets of chains that may have been merged: all of them; if the call succeeded, at
+      \* least those without X; if it was refused because of an X chain, none with X (those
+      \* merged before the refusal are merged correctly, everything else is untouched)
+      allowed == IF XC = {} THEN {C}
+                 ELSE IF c.m1.res = "ok" THEN {S \in SUBSET C : C \ XC \subseteq S}
+                 ELSE {S \in SUBSET C : S \cap XC = {}}
+      good == {S \in allowed : MergeFails(c, G, P1, SetToSeq(S)) = {}}
+      refusedOK == XC # {} /\ c.m1.res \in {"Error"}
+      foreign == c.lps.res = "FOREIGN" \/ c.m1.res = "FOREIGN" \/ c.m2.res = "FOREIGN"
+                 \/ \E k \in DOMAIN c.lp : c.lp[k].res = "FOREIGN" IN
+  (IF foreign THEN {"foreign"} ELSE {})
+  \cup (IF c.m1.res \notin {"ok", "FOREIGN"} /\ ~refusedOK THEN {"C14.refused"} ELSE {})
+  \cup (IF ChainsOK(c, G, A) THEN {} ELSE {"C14.chains"})
+  \cup (IF good # {} THEN {} ELSE MergeFails(c, G, P1, SetToSeq(C)))
   \cup (IF GraphOK(o1) THEN {} ELSE {"C14.graph"})
-  \cup (IF c.m1.res # "ok" \/ (c.m2.res = "ok" /\ o2.dig = o1.dig /\ SameGraph(GraphOfObs(o2), P1))
+  \cup (IF c.m1.res # "ok" \/ (c.m2.res \in (IF XC = {} THEN {"ok"} ELSE {"ok", "Error"})
+                                /\ o2.dig = o1.dig /\ SameGraph(GraphOfObs(o2), P1))
         THEN {} ELSE {"C14.idempotent"})
 
 \* the text builder of the harness produced the intended graph (else: machinery failure)
